@@ -270,7 +270,9 @@ def execute(scn):
         k = op["op"]
         try:
             if k in ("create", "validates"):
-                version = "dsim c20 v%d" % step
+                # version names are free text; some collide after title-casing or look like a draft's name
+                version = ["dsim c20 v%d" % step, "Dsim C20 V%d" % max(0, step - 1), "dsim  c20 v%d" % step,
+                           "draft4 dsim %d" % step][op["v"] % 4]
                 if k == "create":
                     cls, uid = make_class(op, step, version)
                 else:
